@@ -37,6 +37,11 @@ UnitInverses == \A i \in 1..Len(fg) : LET f == fg[i] IN
 RjLaws == \A i \in 1..Len(fg) : \A T \in {R(2), R(300)} : LET f == fg[i] IN
     /\ RJTb(f, RJ(f, T, c, k), c, k) = T                                     \* brightness temperature inverts Rayleigh-Jeans
     /\ RJL(F2L(f, c), T, c, k) = Div(Mul(RJ(f, T, c, k), Mul(f, f)), c)      \* wavelength form = frequency form * f^2 / c
+\* scaling the frequency by s scales the Rayleigh-Jeans radiance by s^2 (and the brightness temperature of a fixed
+\* radiance by 1/s^2): lets the replay use frequencies of 10^9 times the grid values (GHz as Python integers)
+RjHomogeneous == \A i \in 1..Len(fg) : \A sc \in {R(2), R(10), Frac(1, 3)} : LET f == fg[i] IN
+    /\ RJ(Mul(sc, f), R(300), c, k) = Mul(Mul(sc, sc), RJ(f, R(300), c, k))
+    /\ RJTb(Mul(sc, f), R(7), c, k) = Div(RJTb(f, R(7), c, k), Mul(sc, sc))
 DensityLaws ==
     LET a == PerHz2PerM(Spec1, fg, c)  b == PerM2PerHz(a[1], a[2], c)
         d == PerHz2PerN(Spec1, fg, c)  e == PerN2PerHz(d[1], d[2], c)
